@@ -174,3 +174,20 @@ Proof.
   destruct ((v + 1) * w <=? ewidth e); [|reflexivity]. rewrite gen_getitem_slice_eq by exact Hw.
   destruct (mk_getitem_key e _); reflexivity.
 Qed.
+
+(* ---- _normalize_patterns and Value.matches ---- *)
+Lemma gen_normalize_pattern_eq sh p : g_normalize_pattern sh p = normalize_pattern sh p.
+Proof. destruct p; reflexivity. Qed.
+Lemma gen_normalize_patterns_eq sh ps : g_normalize_patterns sh ps = normalize_patterns sh ps.
+Proof.
+  induction ps as [|p ps IH]; [reflexivity|]. cbn [g_normalize_patterns normalize_patterns].
+  rewrite gen_normalize_pattern_eq, IH. reflexivity.
+Qed.
+Lemma gen_match1_eq e p : g_match1 e p = mk_match1n e p.
+Proof. destruct p; reflexivity. Qed.
+Lemma gen_matches_eq e raw : g_matches e raw = mk_matches_raw e raw.
+Proof.
+  unfold g_matches, mk_matches_raw. rewrite gen_normalize_patterns_eq.
+  destruct (normalize_patterns (shape_of e) raw) as [l|]; [|reflexivity].
+  unfold mk_matches_n, mk_any. rewrite (map_ext _ _ (gen_match1_eq e)). reflexivity.
+Qed.
